@@ -69,6 +69,7 @@ type Verifier struct {
 	cellSeq   int
 	vacProbes, vacOK int
 	suppressObs int
+	resultFuncs map[int]resultFn // leaf term id of a func value returned by a contract call -> its contract
 	sums        map[*ssa.Function]*fnSummary
 	sumChanged  bool
 	sumReached  map[*ssa.Function]bool
@@ -155,6 +156,11 @@ func funcRef(fn *ssa.Function) string {
 		return pkg + ".(" + ptr + tn + ")." + name
 	}
 	return pkg + "." + name
+}
+
+type resultFn struct {
+	key  string
+	self *Value
 }
 
 // ---------- obligations ----------
